@@ -173,6 +173,7 @@ struct Gen {
     label_sets: Vec<std::collections::BTreeSet<String>>,
     /// names of labels that will be placed later in an enclosing block
     pending_labels: Vec<String>,
+    size: usize,
 }
 
 impl Gen {
@@ -626,7 +627,7 @@ impl Gen {
                 let l = self.expr(t, depth - 1);
                 let r = match op {
                     "/" | "%" => {
-                        if self.in_const || self.rng.chance(85) {
+                        if self.in_const || self.rng.chance(80) {
                             // a literal divisor that is neither 0 nor -1
                             let w = width(t);
                             let x = 2 + self.rng.below(11) as u128;
@@ -637,12 +638,18 @@ impl Gen {
                                 lit(t, x)
                             }
                         } else {
-                            self.expr(t, depth - 1)
+                            // a computed divisor that cannot be 0 or -1: (e % 5) + 7 lies in 3..11
+                            let e = self.expr(t, depth - 1);
+                            json!({"k": "bin", "op": "+", "l": {"k": "bin", "op": "%", "l": e, "r": lit(t, 5)}, "r": lit(t, 7)})
                         }
                     }
                     "<<" | ">>" => {
                         if self.in_const || self.rng.chance(90) {
                             lit(t, self.rng.below(width(t) as usize) as u128)
+                        } else if self.rng.chance(80) {
+                            // a computed shift amount below the width
+                            let e = self.expr(t, depth - 1);
+                            json!({"k": "bin", "op": "%", "l": e, "r": lit(t, width(t) as u128)})
                         } else {
                             self.expr(t, depth - 1)
                         }
@@ -814,6 +821,25 @@ impl Gen {
             Ty::Arr(..) => "a",
             _ => "s",
         };
+        if let Ty::Named(n) = &t {
+            // `S { m }`: a variable named like a member allows the field shorthand (a layout variation of `m: m`)
+            let d = self.decl(n).clone();
+            let prim: Vec<(String, &'static str)> = d.ms.iter().filter_map(|(m, t)| if let Ty::Prim(p) = t { Some((m.clone(), *p)) } else { None }).collect();
+            if !prim.is_empty() && self.initialisable(&t) && self.rng.chance(20) {
+                let (m, p) = prim[self.rng.below(prim.len())].clone();
+                if !self.scopes.iter().flatten().any(|v| v.name == m) {
+                    self.calls_left = 0;
+                    let e = self.expr(p, 2);
+                    out.push(json!({"k": "V", "x": m, "ty": ty_json(&Ty::Prim(p)), "e": e}));
+                    self.declare(&m, Ty::Prim(p), false);
+                    let fs: Vec<Value> = d.ms.iter().map(|(mm, tt)| if *mm == m { json!({"m": mm, "e": var(&m)}) } else { json!({"m": mm, "e": self.value_of(tt, 1)}) }).collect();
+                    let name = self.fresh("s");
+                    out.push(json!({"k": "V", "x": name, "ty": ty_json(&t), "e": {"k": "st", "n": n, "fs": fs}}));
+                    self.declare(&name, t.clone(), false);
+                    return;
+                }
+            }
+        }
         let name = self.fresh(prefix);
         self.calls_left = 1;
         let e = if self.is_copyable(&t) && self.rng.chance(12) { self.effect_call(&t) } else { None };
@@ -1132,7 +1158,7 @@ impl Gen {
                 13 if depth < 3 => {
                     // counted loop: var i; { body; if i >= k goto out; i = i + 1; loop; } out:
                     let i = self.fresh("cnt");
-                    let k = 1 + self.rng.below(4) as u128;
+                    let k = 1 + self.rng.below(4 * self.size) as u128;
                     let lbl = self.choose_label(Some(self.label_sets.len() - 1));
                     out.push(json!({"k": "V", "x": i, "ty": ty_json(&Ty::Prim("u8")), "e": lit("u8", 0)}));
                     self.declare(&i, Ty::Prim("u8"), true);
@@ -1225,7 +1251,7 @@ impl Gen {
             _ => Some(Ty::Prim(self.scalar_type())),
         };
         let mut body = Vec::new();
-        self.budget = 3 + self.rng.below(7);
+        self.budget = (3 + self.rng.below(7)) * self.size;
         self.has_return_label = ret.is_some() && self.rng.chance(40);
         self.label_sets = vec![Default::default()];
         self.pending_labels.clear();
@@ -1279,8 +1305,10 @@ impl Gen {
     }
 }
 
-pub fn program(seed: u64, i: u64) -> Value {
+/// `size` scales statement budgets and loop counts (1 = quick tier, 2 = thorough tier)
+pub fn program(seed: u64, i: u64, size: usize) -> Value {
     let mut g = Gen {
+        size: size.max(1),
         rng: Rng::new(seed, i),
         structs: Vec::new(),
         scopes: vec![Vec::new()],
@@ -1331,7 +1359,7 @@ pub fn program(seed: u64, i: u64) -> Value {
     g.label_sets = vec![Default::default()];
     g.pending_labels.clear();
     let mut body = Vec::new();
-    g.budget = 4 + g.rng.below(14);
+    g.budget = (4 + g.rng.below(14)) * g.size;
     g.statements(&mut body, 0, None);
     // every function is called at least once, with the caller's cells printed afterwards
     let sigs = g.fns.clone();
